@@ -297,6 +297,66 @@ def add_isolation_schedule(spec, rng, with_leak=0.6, n=1):
     return picked
 
 
+def add_zone_isolation(spec, rng, prefer_pump=0.8, make_pump=0.5):
+    """Time controls that close one open pipe whose far side (junctions only, at least one link inside: a booster pump, a valve,
+    pipes) then has no path to any tank or reservoir, and re-open it later.  -> {'pipe', 'close', 'open', 'nodes', 'links'} or None"""
+    o = spec['options']
+    hyd, dur = o['hydraulic_timestep'], o['duration']
+    links = spec['pipes'] + spec['pumps'] + spec['valves']
+    sources = set(x['name'] for x in spec['reservoirs'] + spec['tanks'])
+    used = set(cs.get('target') for cs in spec['controls']) | \
+        set(a['target'] for cs in spec['controls'] if cs['kind'] == 'rule' for a in cs['then'] + cs.get('else', []))
+    cands = []
+    for p in spec['pipes']:
+        if p.get('cv') or p.get('status') == 'CLOSED' or p['name'] in used:
+            continue
+        adj = {}
+        for l in links:
+            if l is p:
+                continue
+            adj.setdefault(l['start'], set()).add(l['end'])
+            adj.setdefault(l['end'], set()).add(l['start'])
+        for side in (p['start'], p['end']):
+            seen, stack = {side}, [side]
+            while stack:
+                x = stack.pop()
+                for y in adj.get(x, ()):
+                    if y not in seen:
+                        seen.add(y)
+                        stack.append(y)
+            if seen & sources or (p['start'] in seen and p['end'] in seen):
+                continue
+            inside = [l['name'] for l in links if l is not p and l['start'] in seen and l['end'] in seen]
+            if inside:
+                cands.append((p, sorted(seen), inside))
+    if not cands:
+        return None
+    with_pump = [x for x in cands if any(nm.startswith('PU') for nm in x[2])]
+    p, nodes, inside = rng.choice(with_pump if with_pump and rng.random() < prefer_pump else cands)
+    if not any(nm.startswith('PU') for nm in inside) and rng.random() < make_pump:
+        # turn a pipe of the zone into a booster pump
+        inner = [q for q in spec['pipes'] if q['name'] in inside and not q.get('cv') and q.get('status') != 'CLOSED' and q['name'] not in used]
+        if inner:
+            q = rng.choice(inner)
+            spec['pipes'].remove(q)
+            pr = default_profile()
+            qd = sum(d['base'] for j in spec['junctions'] for d in j['demands']) * 0.3
+            _add_pump(spec, rng, pr, q['start'], q['end'], qd, lift=rng.uniform(10, 40))
+            inside = [nm for nm in inside if nm != q['name']] + [spec['pumps'][-1]['name']]
+    nsteps = max(1, int(dur // hyd))
+    t1 = hyd * rng.randint(0, max(0, nsteps - 2)) + rng.choice([0, 0, 1, hyd // 2])
+    t2 = t1 + hyd * rng.randint(1, 3) + rng.choice([0, 0, 0, -1, 1, hyd // 3])
+    if t1 == 0:
+        p['status'] = 'CLOSED'
+    else:
+        spec['controls'].append({'kind': 'time', 'name': 'zone_close_%s' % p['name'], 'time': t1, 'target': p['name'], 'attr': 'status', 'value': 'CLOSED'})
+    if t2 <= dur:
+        spec['controls'].append({'kind': 'time', 'name': 'zone_open_%s' % p['name'], 'time': t2, 'target': p['name'], 'attr': 'status', 'value': 'OPEN'})
+    z = {'pipe': p['name'], 'close': t1, 'open': t2 if t2 <= dur else None, 'nodes': nodes, 'links': inside}
+    spec['zone_isolation'] = z
+    return z
+
+
 def _add_pump(spec, rng, pr, a, b, qd, lift):
     name = 'PU%d' % (len(spec['pumps']) + 1)
     qd = max(qd, 0.001)
